@@ -536,6 +536,17 @@ def sameClock (cur ref : List Nat) : Bool :=
     let r := ref.getD k 0
     !(c != r && (oddPar c && oddPar r))
 
+/-- one iteration (`packet = k + 1`) of the "Level 1 parity check" loop of `lop_parity_check`:
+    the received row replaces the cached one only if all 40 bytes have odd parity -/
+def parityRow (lopRaw : List (List Nat)) (lopPackets : Nat) (cv : Page) (k : Nat) : Page :=
+  let packet := k + 1
+  if lopPackets &&& (1 <<< packet) == 0 then cv
+  else
+    let row := lopRaw.getD packet zeroRow
+    if row.all oddPar then
+      { cv with raw := cv.raw.set packet row, lopPackets := cv.lopPackets ||| (1 <<< packet) }
+    else cv
+
 /-- `lop_parity_check (cvtp, rvtp)` -/
 def lopParityCheck (cv : Page) (rv : RawPage) : Page × RawPage :=
   -- X/26 fix-ups: set odd parity on columns overridden by enhancement triplets
@@ -560,14 +571,7 @@ def lopParityCheck (cv : Page) (rv : RawPage) : Page × RawPage :=
     else rv.lopRaw
   let rv := { rv with lopRaw := lopRaw }
   -- Level 1 parity check, rows 1..25
-  let cv := (List.range 25).foldl (fun (cv : Page) (k : Nat) =>
-    let packet := k + 1
-    if rv.lopPackets &&& (1 <<< packet) == 0 then cv
-    else
-      let row := lopRaw.getD packet zeroRow
-      if row.all oddPar then
-        { cv with raw := cv.raw.set packet row, lopPackets := cv.lopPackets ||| (1 <<< packet) }
-      else cv) cv
+  let cv := (List.range 25).foldl (parityRow lopRaw rv.lopPackets) cv
   (cv, rv)
 
 def hdrText (row0 : List Nat) : List Nat := row0.drop 8
@@ -1344,19 +1348,22 @@ def processRow (s : St) (mag0 mag8 packet : Nat) (v : View) : Res :=
     else ⟨s, [], false⟩
   else done (s.setPage mag0 { cv with raw := cv.raw.set packet v.raw }) []
 
+/-- one iteration of the triplet loop of packet 26 (`break` on an uncorrectable triplet) -/
+def x26Step (v : View) (acc : List Triplet × Nat × List Aux × Bool) (i : Nat) :
+    List Triplet × Nat × List Aux × Bool :=
+  let (enh, nt, ev, brk) := acc
+  if brk then acc else
+  match v.g24 i with
+  | none => (enh, nt, ev, true)
+  | some t =>
+    if nt < ENH_SIZE then
+      (enh.set nt ⟨t &&& 0x3F, (t >>> 6) &&& 0x1F, (t >>> 11) &&& 0xFF⟩, nt + 1, ev, false)
+    else (enh, nt + 1, ev ++ [Aux.fault "x26:enh"], false)
+
 /-- the 13 triplets of an accepted X/26 packet: appended at `nt`, stop at the first uncorrectable one -/
 def x26Triplets (v : View) (enh : List Triplet) (nt : Nat) : List Triplet × Nat × List Aux :=
-  let (enh, nt, ev, _) := (List.range 13).foldl (fun (acc : List Triplet × Nat × List Aux × Bool) i =>
-    let (enh, nt, ev, brk) := acc
-    if brk then acc else
-    match v.g24 i with
-    | none => (enh, nt, ev, true)
-    | some t =>
-      if nt < ENH_SIZE then
-        (enh.set nt ⟨t &&& 0x3F, (t >>> 6) &&& 0x1F, (t >>> 11) &&& 0xFF⟩, nt + 1, ev, false)
-      else (enh, nt + 1, ev ++ [Aux.fault "x26:enh"], false))
-    (enh, nt, [], false)
-  (enh, nt, ev)
+  let r := (List.range 13).foldl (x26Step v) (enh, nt, [], false)
+  (r.1, r.2.1, r.2.2.1)
 
 def process26 (s : St) (mag0 : Nat) (v : View) : Res :=
   let rp := s.rp mag0
